@@ -143,6 +143,8 @@ class FindersProfile(StoreProfile):
                           {"search": s, "extra": sorted(sets["A"] - want), "missing": sorted(want - sets["A"])})
         if any(sets.values()):
             run.stats["nonempty_searches"] += 1
+            # non-trivial = at least one party found something; distinct = (search, answer of FindInAll, junk present)
+            run.case_mark(s, sorted(sets["A"]), bool(run.scratch.get("junk")))
         return ans
 
     def recheck_after_junk(self, run, step):
